@@ -148,3 +148,26 @@ Proof.
   repeat (destruct H as [<-|H]; [vm_compute; intros C; repeat (destruct C as [C|C]; [discriminate C|]); exact C|]).
   contradiction.
 Qed.
+
+(* ---- the read-only hooks on the aliased model mA *)
+Example hooks_on_mA :
+  alias_read am3 QCompletions (fst mA) = (fst mA, Ret (VNames ["status"; "iterations"; "X"; "Y"; "Z"; "A"; "B"; "C"; "D"; "y"])) /\
+  alias_read am3 QNbytes (fst mA) = (fst mA, Ret (VNat (3 * (4 + 8 + 8 + 8 + 8)))) /\
+  (forall x, In x (index (fst mA)) -> ~ In x (akeys (amap am3))).
+Proof.
+  split; [vm_compute; reflexivity|]. split; [vm_compute; reflexivity|].
+  intros x H. vm_compute in H.
+  repeat (destruct H as [<-|H]; [vm_compute; intros C; repeat (destruct C as [C|C]; [discriminate C|]); exact C|]).
+  contradiction.
+Qed.
+
+(* ---- kept finding: `in` is not wrapped by the mixin, so it tells an alias from the variable it names *)
+Theorem alias_not_a_member_refuted :
+  exists am s n, WFam am /\ Inv s /\ In n (akeys (amap am)) /\
+    snd (alias_read am (QContains (resolve am n)) s) = Ret (VBool true) /\
+    snd (alias_read am (QContains n) s) = Ret (VBool false) /\
+    alias_getitem am (KName n) s = alias_getitem am (KName (resolve am n)) s.
+Proof.
+  exists am3, (fst mA), "A". split; [exact (proj1 am3_wf)|]. split; [exact mA_inv|].
+  split; [vm_compute; left; reflexivity|]. vm_compute. repeat split.
+Qed.
